@@ -120,6 +120,7 @@ class Term:
         
         # Now copy the content of t onto self
         self.__dict__.update(t.__dict__)
+        self._id = id(self)
 
     def is_svar(self) -> bool:
         return self.ty == Term.SVAR
